@@ -761,3 +761,104 @@ def c03_7(I, shape):
     I.check(P.fp(cs.serverCertChain) == P.fp(sc.srv_chain) and
             P.fp(ss.serverCertChain) == P.fp(sc.srv_chain),
             "server-chain-agreed")
+
+
+# ---------------------------------------------------------------------------
+# C03.8  negotiated extras between live endpoints: ALPN, SNI, record limits
+# ---------------------------------------------------------------------------
+
+def _shapes_c03_8(tier):
+    out = []
+    for ver in ("tls13", "tls12", "tls10"):
+        for alpn in ("overlap", "server-prefers-other", "disjoint", "none",
+                     "client-none"):
+            out.append(dict(ver=ver, alpn=alpn))
+    return out
+
+
+@obligation("C03.8", _shapes_c03_8,
+            functions=PAIR_FUNCS + PAIR12_FUNCS,
+            assumes=P.PAIR_ASSUMES + [
+                "both record_size_limit settings are symbolic integers in "
+                "their documented domain [64, 2^14+1]; client ALPN list "
+                "(h2, http/1.1), server list per shape; SNI host.example; "
+                "TLS 1.3 / TLS 1.2 ECDHE_RSA GCM / TLS 1.0 ECDHE_RSA CBC"],
+            patches=_pair12_patches, max_paths=400, timeout=(600, 1800))
+def c03_8(I, shape):
+    """after completion both ends hold the same ALPN protocol (one both
+    listed, the client's first choice among the server's), the same server
+    name, and dual record size limits (what one may send is what the other
+    accepts) inside both settings; disjoint ALPN lists end in an alert"""
+    ver = shape["ver"]
+    if ver == "tls13":
+        cset, sset = P.settings13(), P.settings13()
+    elif ver == "tls12":
+        cset, sset = P.settings12(), P.settings12()
+    else:
+        cset = P.settings12((3, 1), "ecdhe_rsa", "aes128", "sha")
+        sset = P.settings12((3, 1), "ecdhe_rsa", "aes128", "sha")
+    climit = I.int_range(64, 2 ** 14 + 1, "client_record_size_limit")
+    slimit = I.int_range(64, 2 ** 14 + 1, "server_record_size_limit")
+    cset.record_size_limit = climit
+    sset.record_size_limit = slimit
+    if ver == "tls13":
+        # external PSK: the encrypted flights stay below the smallest record
+        # limit, so the symbolic limits do not multiply fragmentation paths
+        secret = I.bytes(32, "psk")
+        for st in (cset, sset):
+            st.pskConfigs = [(bytearray(b"ident"), newbuf(list(secret)),
+                              "sha256")]
+        sc = P.Scenario(I, PAIR_RND12, cset, sset, server_cred=None)
+    else:
+        sc = P.Scenario(I, PAIR_RND12, cset, sset, server_cred="rsa")
+    calpn = [bytearray(b"h2"), bytearray(b"http/1.1")]
+    salpn = {"overlap": [bytearray(b"h2"), bytearray(b"http/1.1")],
+             "server-prefers-other": [bytearray(b"http/1.1"),
+                                      bytearray(b"spdy/3")],
+             "disjoint": [bytearray(b"spdy/3")],
+             "none": None, "client-none": [bytearray(b"h2")]}[shape["alpn"]]
+    if shape["alpn"] != "client-none":
+        sc.client_kwargs["alpn"] = calpn
+    sc.client_kwargs["serverName"] = "host.example"
+    if salpn is not None:
+        sc.server_kwargs["alpn"] = salpn
+    sc.run()
+    for ep, nm in ((sc.cep, "client"), (sc.sep, "server")):
+        I.check(ep.crash is None, "no-raw-exception-from-the-handshake",
+                detail=lambda: dict(side=nm, tb=ep.crash))
+    if shape["alpn"] == "disjoint" and ver != "tls13":
+        I.check(not sc.completed(sc.cep) and not sc.completed(sc.sep),
+                "disjoint-alpn-lists-never-complete")
+        return
+    # TLS 1.3 with disjoint lists: tlslite-ng goes on without ALPN instead of
+    # RFC 7301's no_application_protocol (observation, DESIGN 12); both ends
+    # then hold "no protocol", which is what is checked below
+    I.check(sc.both_completed(), "honest-handshake-completes",
+            detail=lambda: dict(c=repr(sc.cep.error), s=repr(sc.sep.error)))
+    if not sc.both_completed():
+        return
+    c, s = sc.c, sc.s
+    want = {"overlap": bytearray(b"h2"),
+            "server-prefers-other": bytearray(b"http/1.1"),
+            "none": None, "client-none": None,
+            "disjoint": None}[shape["alpn"]]
+    I.check(c.session.appProto == s.session.appProto == want,
+            "alpn-protocol-agreed-and-in-both-lists",
+            detail=lambda: dict(c=repr(c.session.appProto),
+                                s=repr(s.session.appProto)))
+    I.check(c.session.serverName == s.session.serverName == "host.example",
+            "server-name-agreed")
+    I.check(c._send_record_limit == s._recv_record_limit,
+            "client-send-limit-is-server-receive-limit",
+            detail=lambda: dict(c=repr(c._send_record_limit),
+                                s=repr(s._recv_record_limit)))
+    I.check(s._send_record_limit == c._recv_record_limit,
+            "server-send-limit-is-client-receive-limit")
+    tls13 = ver == "tls13"
+    I.check(AND(c._recv_record_limit <= climit - (1 if tls13 else 0),
+                s._recv_record_limit <= slimit - (1 if tls13 else 0),
+                c._recv_record_limit <= 2 ** 14,
+                s._recv_record_limit <= 2 ** 14),
+            "receive-limits-inside-own-settings")
+    I.check(AND(c._recv_record_limit >= 63, s._recv_record_limit >= 63),
+            "limits-not-below-the-protocol-minimum")
